@@ -408,6 +408,7 @@ def rows_for(tier):
     X = lambda s: ("x", s)
     O = lambda s: ("o", s)
     reps = class_reps()
+    FN0 = lambda s_: ("fn", s_)
     infix_all = [op for op, f in d.items() if "infix" in f and "left" not in f and "right" not in f and op not in PSEUDO_SCRIPTS and op not in AMBIGUOUS]
     prefix_all = [op for op, f in d.items() if "prefix" in f and "left" not in f]
     postfix_all = [op for op, f in d.items() if "postfix" in f and "right" not in f and op not in PSEUDO_SCRIPTS]
@@ -421,6 +422,23 @@ def rows_for(tier):
             rows.append(("pair", [X("a"), O(o1), X("b"), O(o2), X("k")]))
             if tier == "thorough":
                 rows.append(("pair", [X("a"), O(o2), X("b"), O(o1), X("k")]))
+    # EVERY infix operator against its neighbours in the priority order (the class representatives just below, at, and just above its
+    # priority), and next to a prefix minus, a postfix factorial and a function application: a wrong priority of a single operator shows here
+    by_prio = sorted(inf_reps, key=lambda o: d[o]["infix"])
+    prios = [d[o]["infix"] for o in by_prio]
+    import bisect
+    for o1 in infix_all:
+        p1 = d[o1]["infix"]
+        i = bisect.bisect_left(prios, p1)
+        neigh = {by_prio[j] for j in (i - 2, i - 1, i, i + 1, i + 2) if 0 <= j < len(by_prio)}
+        for o2 in sorted(neigh):
+            rows.append(("neighbour", [X("a"), O(o1), X("b"), O(o2), X("k")]))
+            rows.append(("neighbour", [X("a"), O(o2), X("b"), O(o1), X("k")]))
+        rows.append(("neighbour", [O("-"), X("a"), O(o1), X("b")]))
+        rows.append(("neighbour", [X("a"), O(o1), X("b"), O("!")]))
+        rows.append(("neighbour", [X("a"), O(o1), O("-"), X("b")]))
+        rows.append(("funcapp", [FN0("f"), ("(",), X("b"), (")",), O(o1), X("2")]))
+        rows.append(("funcapp", [X("a"), O(o1), FN0("f"), ("(",), X("b"), (")",)]))
     for o1 in inf_reps:
         for o2 in inf_reps:
             rows.append(("pair", [X("a"), O(o1), X("b"), O(o2), X("k")]))
